@@ -6,6 +6,7 @@ from fractions import Fraction
 import numpy as np
 from hypothesis import strategies as st
 
+from vlib import defaults
 from vlib.core import Part
 
 PROPERTY = "C20"
@@ -689,4 +690,7 @@ PARTS = [
     Part("broadcast", oracle_broadcast, strategy=_seeded(_bc_cases), quick=(2, 120), thorough=(8, 400)),
     # (1-p)^r >= c: order_stats('n') raises ValueError on the unchanged tree (reported defect)
     Part("os_n_at_r", oracle_n_at_r, strategy=_seeded(_n_at_r_cases), quick=(1, 60), thorough=(1, 500)),
+    # documented defaults: leaving a keyword out = passing its documented value (vlib/defaults.py)
+    Part("defaults", defaults.make_oracle("C20"), enum=defaults.make_enum(), quick=(1, None), thorough=(1, None),
+         exhaustive=True),
 ]
